@@ -163,11 +163,13 @@ Record mstate := {
   abs_done : list key;                (* completed outputs referenced by absolute triggers *)
   stop_point : Z;
   done : list key;                    (* every output completed so far, by any instance (append-only) *)
+  to_hold : list tid;                 (* instances to hold (pooled ones are held; future ones will be on spawn) *)
+  hold_pt : option Z;                 (* workflow hold point *)
 }.
 
 Definition init_state (c : cfg) : mstate :=
   {| pool := []; limbo := []; hist := []; subs := []; limit := None; relq := []; abs_done := [];
-     stop_point := c_fcp c; done := [] |}.
+     stop_point := c_fcp c; done := []; to_hold := []; hold_pt := None |}.
 
 Fixpoint find_task (l : list ptask) (t : tid) : option ptask :=
   match l with
@@ -187,28 +189,31 @@ Fixpoint update_task (l : list ptask) (p' : ptask) : list ptask :=
 
 Definition with_pool (s : mstate) (l : list ptask) : mstate :=
   {| pool := l; limbo := limbo s; hist := hist s; subs := subs s; limit := limit s; relq := relq s;
-     abs_done := abs_done s; stop_point := stop_point s; done := done s |}.
+     abs_done := abs_done s; stop_point := stop_point s; done := done s; to_hold := to_hold s; hold_pt := hold_pt s |}.
 Definition with_limbo (s : mstate) (l : list ptask) : mstate :=
   {| pool := pool s; limbo := l; hist := hist s; subs := subs s; limit := limit s; relq := relq s;
-     abs_done := abs_done s; stop_point := stop_point s; done := done s |}.
+     abs_done := abs_done s; stop_point := stop_point s; done := done s; to_hold := to_hold s; hold_pt := hold_pt s |}.
 Definition with_hist (s : mstate) (l : list hrec) : mstate :=
   {| pool := pool s; limbo := limbo s; hist := l; subs := subs s; limit := limit s; relq := relq s;
-     abs_done := abs_done s; stop_point := stop_point s; done := done s |}.
+     abs_done := abs_done s; stop_point := stop_point s; done := done s; to_hold := to_hold s; hold_pt := hold_pt s |}.
 Definition with_subs (s : mstate) (l : list (tid * nat)) : mstate :=
   {| pool := pool s; limbo := limbo s; hist := hist s; subs := l; limit := limit s; relq := relq s;
-     abs_done := abs_done s; stop_point := stop_point s; done := done s |}.
+     abs_done := abs_done s; stop_point := stop_point s; done := done s; to_hold := to_hold s; hold_pt := hold_pt s |}.
 Definition with_limit (s : mstate) (l : option Z) : mstate :=
   {| pool := pool s; limbo := limbo s; hist := hist s; subs := subs s; limit := l; relq := relq s;
-     abs_done := abs_done s; stop_point := stop_point s; done := done s |}.
+     abs_done := abs_done s; stop_point := stop_point s; done := done s; to_hold := to_hold s; hold_pt := hold_pt s |}.
 Definition with_relq (s : mstate) (l : list tid) : mstate :=
   {| pool := pool s; limbo := limbo s; hist := hist s; subs := subs s; limit := limit s; relq := l;
-     abs_done := abs_done s; stop_point := stop_point s; done := done s |}.
+     abs_done := abs_done s; stop_point := stop_point s; done := done s; to_hold := to_hold s; hold_pt := hold_pt s |}.
 Definition with_done (s : mstate) (l : list key) : mstate :=
   {| pool := pool s; limbo := limbo s; hist := hist s; subs := subs s; limit := limit s; relq := relq s;
-     abs_done := abs_done s; stop_point := stop_point s; done := l |}.
+     abs_done := abs_done s; stop_point := stop_point s; done := l; to_hold := to_hold s; hold_pt := hold_pt s |}.
+Definition with_hold (s : mstate) (l : list tid) (hp : option Z) : mstate :=
+  {| pool := pool s; limbo := limbo s; hist := hist s; subs := subs s; limit := limit s; relq := relq s;
+     abs_done := abs_done s; stop_point := stop_point s; done := done s; to_hold := l; hold_pt := hp |}.
 Definition with_abs (s : mstate) (l : list key) : mstate :=
   {| pool := pool s; limbo := limbo s; hist := hist s; subs := subs s; limit := limit s; relq := relq s;
-     abs_done := l; stop_point := stop_point s; done := done s |}.
+     abs_done := l; stop_point := stop_point s; done := done s; to_hold := to_hold s; hold_pt := hold_pt s |}.
 
 (* a task is looked up in the pool first, then among the just-spawned ones *)
 Definition lookup (s : mstate) (t : tid) : option (ptask * bool) :=
@@ -226,6 +231,16 @@ Definition has_out (l : list output) (o : output) : bool := mem Nat.eqb o l.
 
 (* has output [o] of instance [t] been completed so far? *)
 Definition out_done (s : mstate) (t : tid) (o : output) : bool := mem key_eqb (t, o) (done s).
+
+(* should instance [t] be held? (explicitly, or because it is beyond the hold point) *)
+Definition beyond_hold (s : mstate) (t : tid) : bool :=
+  match hold_pt s with Some hp => Z.ltb hp (fst t) | None => false end.
+Definition hold_expected (s : mstate) (t : tid) : bool := mem tid_eqb t (to_hold s) || beyond_hold s t.
+Definition add_hold (s : mstate) (t : tid) : mstate :=
+  if mem tid_eqb t (to_hold s) then s else with_hold s (t :: to_hold s) (hold_pt s).
+Definition drop_hold (l : list tid) (t : tid) : list tid := filter (fun x => negb (tid_eqb x t)) l.
+Definition same_tids (a b : list tid) : bool :=
+  forallb (fun k => mem tid_eqb k b) a && forallb (fun k => mem tid_eqb k a) b.
 
 (* ready to be queued: what queue_if_ready / is_ready_to_run require *)
 Definition ready (i : inst) (p : ptask) : bool :=
@@ -302,7 +317,12 @@ Inductive event :=
 | ELimit (l : option Z)
 | EMerge (t : tid) (flows : list nat)
 | EAbs (k : key)
-| ETickEnd (snap : list tview)
+| ECmdHold (ids : list tid)
+| ECmdRelease (ids : list tid)
+| ECmdHoldPoint (p : Z)
+| ECmdReleaseHoldPoint
+| ERemoveBegin (t : tid)
+| ETickEnd (snap : list tview) (held : list tid) (hp : option Z)
 | EShutdownAuto.
 
 Inductive res := Ok (s : mstate) | Err (code : nat).
@@ -366,7 +386,9 @@ Definition step (c : cfg) (s : mstate) (e : event) : res :=
           if negb (Z.leb (c_icp c) (fst t) && Z.leb (fst t) (c_fcp c)) then Err 102
           else if existsb (fun p => tid_eqb (p_id p) t) (pool s) then Err 103   (* already pooled (C26) *)
           else if negb (subset_keys sat0 (expected_sat0 s i)) then Err 104      (* initially satisfied only by completed absolute outputs *)
-          else Ok (with_limbo s (new_task t flows sat0 held :: remove_task (limbo s) t))
+          else if negb (Bool.eqb held (hold_expected s t)) then Err 105         (* future holds take effect on spawn (C06) *)
+          else let s1 := if held then add_hold s t else s in
+               Ok (with_limbo s1 (new_task t flows sat0 held :: remove_task (limbo s) t))
       end
   | EAdd t =>
       match find_task (limbo s) t with
@@ -403,7 +425,10 @@ Definition step (c : cfg) (s : mstate) (e : event) : res :=
           else if negb r && p_runahead p && negb (within_limit s p) && negb (p_manual p) then Err 143  (* runahead (C04) *)
           else if status_eqb st Preparing && negb (status_eqb (p_status p) Preparing) && p_held p && negb (p_manual p)
                then Err 144                                   (* held never prepared (C06) *)
-          else Ok (store s (set_flags (set_status p st) h q r) inp)
+          else if h && negb (p_held p) && negb (hold_expected s t) then Err 145    (* held only on request (C06) *)
+          else if negb h && p_held p && mem tid_eqb t (to_hold s) then Err 146     (* released only on request (C06) *)
+          else let s1 := if h && negb (p_held p) then add_hold s t else s in
+               Ok (store s1 (set_flags (set_status p st) h q r) inp)
       | _, _ => Err 140
       end
   | EReleaseBegin =>
@@ -448,8 +473,15 @@ Definition step (c : cfg) (s : mstate) (e : event) : res :=
       end
   | EAbs k =>
       if out_done s (fst k) (snd k) then Ok (with_abs s (k :: abs_done s)) else Err 195   (* C45 *)
-  | ETickEnd snap =>
+  | ECmdHold ids => Ok (fold_left add_hold ids s)
+  | ECmdRelease ids => Ok (with_hold s (fold_left drop_hold ids (to_hold s)) (hold_pt s))
+  | ECmdHoldPoint p => Ok (with_hold s (to_hold s) (Some p))
+  | ECmdReleaseHoldPoint => Ok (with_hold s [] None)
+  | ERemoveBegin t => Ok (with_hold s (drop_hold (to_hold s) t) (hold_pt s))
+  | ETickEnd snap held hp =>
       if negb (Nat.eqb (List.length snap) (List.length (pool s))) then Err 201
+      else if negb (same_tids held (to_hold s) && option_eqb Z.eqb hp (hold_pt s)) then Err 207      (* hold set / hold point (C06) *)
+      else if negb (forallb (fun p => Bool.eqb (p_held p) (mem tid_eqb (p_id p) (to_hold s))) (pool s)) then Err 208
       else if negb (forallb (fun v => match find_task (pool s) (v_id v) with
                                       | Some p => view_matches p v | None => false end) snap) then Err 202
       else
